@@ -69,4 +69,24 @@ var configs = map[string]propCfg{
 			"Non-trivial = a judged diagnostic in a program that re-declares such a name; distinct by checker x program x position.",
 		Assumptions: []string{wellTyped, "missing a diagnostic on a namesake is never a violation; only reports are judged", "method-based subjects (types) are not judged: fake packages alias the real types"},
 	},
+	"C13": {
+		Quick:    tierCfg{Shards: 8, Checks: 150, Limit: qLimit},
+		Thorough: tierCfg{Shards: 16, Checks: 3000, Limit: tLimit},
+		Floor:    100,
+		Rule: "a file of a maintainer-written example package (70%) or a kernel file (30%) is cut line-wise into top-level declaration chunks (each with its leading comments and /*! expectation */ lines); " +
+			"receiver-less function chunks are permuted among their slots, padding (blank lines, var, empty func, bodiless func, func with a closure, type, comment) is inserted between chunks, unrelated declarations are appended; the transformed package is re-type-checked. " +
+			"Oracles: (a) the example's own expectations, re-bound by line with the rule of linttest/end2end.go, are all produced and nothing else (outside padding), with the suite's two parameter overrides; " +
+			"(b) for all 107 checkers the multiset of (checker, line relative to the declaration chunk, column, message) per chunk is unchanged. Checkers whose documented subject is file-level order are exempt from (b). " +
+			"Non-trivial = a non-identity transformation of a file that has expectations/diagnostics; distinct by transformed text.",
+		Assumptions: []string{wellTyped, "reordering is restricted to receiver-less functions other than init/main (type-neutral in Go)", "exempt: dupImport, typeDefFirst, codegenComment, commentedOutImport"},
+	},
+	"C11": {
+		Quick:    tierCfg{Shards: 8, Checks: 250, Limit: qLimit},
+		Thorough: tierCfg{Shards: 16, Checks: 12000, Limit: tLimit},
+		Floor:    40,
+		Rule: "patterns from a grammar over Go regexp syntax (<= 60 bytes, accepted by regexp.Compile) biased to the simplifier's rewrite sites (single-element classes incl. - ] ^ { , single-char alternations, {0,1} {1,} {0,} {0} {1} on chars/groups/captures, xx*, runs of equal atoms, removable escapes, posix/perl classes, literal alternations sharing a prefix/suffix, flag groups, named captures), 1-10 per case, rendered as \"...\" or back-quoted constants inside regexp.MustCompile/Compile. " +
+			"Oracle for every proposed rewrite A -> B: B compiles; NumSubexp and SubexpNames equal; FindStringSubmatchIndex equal on ALL strings of length <= 4 over a 6-symbol alphabet built from A's own literals plus foreigners, plus random subjects up to 12 runes. " +
+			"Non-trivial = a rewrite was proposed; distinct by pattern with letters renamed in order of appearance.",
+		Assumptions: []string{"patterns longer than 60 bytes are outside the checker's domain", "equivalence is tested on a small-scope exhaustive subject set, not proven"},
+	},
 }
